@@ -220,3 +220,77 @@ Proof.
   replace (s0 + s1 + s2 - (s0 + s1 + s2 - ch - 1) - 1) with ch by lia.
   reflexivity.
 Qed.
+
+(** ** the hop under the pointer is the same hop: every accepted byte string *)
+Lemma nth_chunk k (l : list (list N)) (r : list N) j :
+  all_len k l -> (j < length l)%nat -> firstn k (skipn (k * j) (concat l ++ r)) = nth j l [].
+Proof.
+  intros H. revert j. induction H as [|x l Hx _ IH]; intros j Hj; cbn [length] in Hj; [lia|].
+  cbn [concat]. rewrite <- app_assoc. destruct j as [|j].
+  - rewrite Nat.mul_0_r. cbn [skipn nth]. apply firstn_app_exact. auto.
+  - replace (k * S j)%nat with (length x + k * j)%nat by lia.
+    rewrite skipn_app, skipn_all2 by lia. cbn [app nth].
+    replace (length x + k * j - length x)%nat with (k * j)%nat by lia. apply IH. lia.
+Qed.
+
+Section AssembledFields.
+Variables ci ch rsv s0 s1 s2 : N.
+Variables IF HF : list (list N).
+Hypothesis Hm : meta_ok ci ch rsv s0 s1 s2.
+Hypothesis Hs : shaped s0 s1 s2 IF HF.
+Let b := assemble ci ch rsv s0 s1 s2 IF HF.
+
+Lemma asm_hop_field j : j < N.of_nat (length HF) -> hop_field b j = Some (nth (N.to_nat j) HF []).
+Proof.
+  intros Hj. subst b. unfold hop_field. rewrite (asm_hop_count _ _ _ _ _ _ _ _ Hm Hs).
+  destruct (N.of_nat (length HF) <=? j) eqn:E; [lia|]. f_equal.
+  unfold get_range, hop_off. rewrite (asm_info_count _ _ _ _ _ _ _ _ Hm Hs), Nat2N.id.
+  unfold assemble. rewrite app_assoc.
+  rewrite <- (app_nil_r (concat HF)).
+  replace (4 + 8 * length IF + 12 * N.to_nat j)%nat
+    with (length (mk_meta ci ch rsv s0 s1 s2 ++ concat IF) + 12 * N.to_nat j)%nat.
+  2:{ rewrite app_length, mk_meta_length, (concat_length_all 8) by apply Hs. lia. }
+  rewrite skipn_app, skipn_all2 by lia. cbn [app].
+  match goal with |- context [(?a + ?c - ?a)%nat] => replace (a + c - a)%nat with c by lia end.
+  apply nth_chunk; [apply Hs|lia].
+Qed.
+
+Lemma asm_info_field i : i < N.of_nat (length IF) -> info_field b i = Some (nth (N.to_nat i) IF []).
+Proof.
+  intros Hi. subst b. unfold info_field. rewrite (asm_info_count _ _ _ _ _ _ _ _ Hm Hs).
+  destruct (N.of_nat (length IF) <=? i) eqn:E; [lia|]. f_equal.
+  unfold get_range, info_off. unfold assemble.
+  replace (4 + 8 * N.to_nat i)%nat with (length (mk_meta ci ch rsv s0 s1 s2) + 8 * N.to_nat i)%nat
+    by (rewrite mk_meta_length; lia).
+  rewrite skipn_app, skipn_all2 by lia. cbn [app].
+  match goal with |- context [(?a + ?c - ?a)%nat] => replace (a + c - a)%nat with c by lia end.
+  apply nth_chunk; [apply Hs|lia].
+Qed.
+End AssembledFields.
+
+Lemma view_reverse_same_hop b b' :
+  view_ok b = true -> view_try_reverse b = (b', Ok tt) ->
+  exists h, hop_field b (curr_hf b) = Some h /\ hop_field b' (curr_hf b') = Some h
+            /\ curr_hf b' + curr_hf b + 1 = hop_count b.
+Proof.
+  intros Hv H.
+  destruct (view_decompose b Hv) as (ci & ch & rsv & s0 & s1 & s2 & IF & HF & -> & Hm & Hs & Hb).
+  destruct (view_reverse_cases _ _ _ _ _ _ _ _ Hm Hs) as [[e He]|(a & c & d & E & H0 & Hch & Hci & Hfit & Hr)].
+  { rewrite He in H. discriminate. }
+  rewrite Hr in H. inversion H; subst b'; clear H.
+  assert (Hrc : rev_seg_count s1 s2 <= 3) by (unfold rev_seg_count; destruct (s1 =? 0); [|destruct (s2 =? 0)]; lia).
+  assert (Hm' : meta_ok (rev_seg_count s1 s2 - ci - 1) (s0 + s1 + s2 - ch - 1) rsv a c d).
+  { unfold meta_ok in Hm. apply (rev_lens_ok ci ch rsv s0 s1 s2 a c d _ _ E Hm); lia. }
+  assert (Hs' : shaped a c d (rev (map toggle_cons_dir IF)) (rev HF)).
+  { apply (shaped_rev s0 s1 s2); auto.
+    - apply (rev_lens_nz _ _ _ _ _ _ E). - apply (rev_lens_sum _ _ _ _ _ _ E). }
+  pose proof (sh_hf_cnt _ _ _ _ _ Hs) as Hn.
+  exists (nth (N.to_nat ch) HF []).
+  rewrite (asm_curr_hf _ _ _ _ _ _ _ _ Hm), (asm_curr_hf _ _ _ _ _ _ _ _ Hm'),
+          (asm_hop_count _ _ _ _ _ _ _ _ Hm Hs).
+  refine (conj _ (conj _ _)).
+  - apply asm_hop_field; auto. lia.
+  - rewrite (asm_hop_field _ _ _ _ _ _ _ _ Hm' Hs') by (rewrite rev_length; lia).
+    f_equal. rewrite rev_nth by lia. f_equal. lia.
+  - lia.
+Qed.
